@@ -20,16 +20,17 @@ type Handle struct {
 	Closed bool
 }
 type SimFS struct {
-	Files   map[string]*SimFile
-	Dirs    map[string]bool
-	Handles map[*Value]*Handle
-	Ops     int
+	Files                            map[string]*SimFile
+	Dirs                             map[string]bool
+	Handles                          map[*Value]*Handle
+	Ops                              int
 	errNotExist, errExist, errClosed Value
-	tmpN    int
-	Armed   bool
-	Mode    int // 1 process death, 2 power loss
-	CrashAt string
-	outs    []Ptr
+	tmpN                             int
+	Armed                            bool
+	Mode                             int // 1 process death, 2 power loss
+	CrashAt                          string
+	outs                             []Ptr
+	CrashKind                        int // 0 none, 1 at an operation boundary, 2 in-flight write torn, 3 unsynced data trimmed (power loss)
 }
 
 func NewSimFS() *SimFS {
@@ -83,8 +84,8 @@ func (r *Run) newFileValue(h *Handle) Value {
 	return Ptr(cell)
 }
 
-func num(v int) Value  { return Num{W: 64, Signed: true, C: uint64(v)} }
-func nilErr() Value    { return Iface{} }
+func num(v int) Value     { return Num{W: 64, Signed: true, C: uint64(v)} }
+func nilErr() Value       { return Iface{} }
 func cstr(v Value) string { return string(v.(Str)) }
 
 func (r *Run) openFile(name string, flag int) Value {
@@ -362,6 +363,7 @@ func (r *Run) crashPoint(op string, hd *Handle, data []Value) {
 		return
 	}
 	fs.Armed = false
+	fs.CrashKind = 1
 	fs.CrashAt = fmt.Sprintf("%s#%d", op, fs.Ops)
 	r.Choices = append(r.Choices, "crash@"+fs.CrashAt)
 	if hd != nil && len(data) > 0 {
@@ -376,6 +378,9 @@ func (r *Run) crashPoint(op string, hd *Handle, data []Value) {
 		}
 		k := cands[r.decide(len(cands), func(i int) *Term { return nil })]
 		r.Choices = append(r.Choices, fmt.Sprintf("torn=%d/%d", k, len(data)))
+		if k > 0 && k < len(data) {
+			fs.CrashKind = 2
+		}
 		pos := hd.Pos
 		if hd.Append {
 			pos = len(hd.F.Data)
@@ -403,6 +408,9 @@ func (r *Run) crashPoint(op string, hd *Handle, data []Value) {
 			}
 			k := cands[r.decide(len(cands), func(i int) *Term { return nil })]
 			r.Choices = append(r.Choices, fmt.Sprintf("keep=%d/%d", k, span))
+			if k < span && fs.CrashKind == 1 {
+				fs.CrashKind = 3
+			}
 			f.Data = f.Data[:f.Durable+k]
 		}
 	}
